@@ -2135,6 +2135,9 @@ func (pb *PositionedBlock) writeRLEs(indices map[uint32]struct{}, op *OutputOp, 
 						return fmt.Errorf("Sub-block with 0 labels detected: %s\n", pb.BCoord)
 					case 1:
 						dx = SubBlockSize - x%SubBlockSize
+						if vx+dx-1 > maxPt[0] {
+							dx = maxPt[0] - vx + 1 // a run stops at the (possibly clipped) maximum x
+						}
 						if multiForeground {
 							_, foreground = indices[curIndices[0]]
 						} else {
